@@ -8,6 +8,8 @@ DriverConfigs == {
     Cfg("uni_mul_kb_prep", "uni", FALSE, TRUE, FALSE, FALSE),
     Cfg("uni_gl_d2", "uni", FALSE, FALSE, FALSE, TRUE),
     Cfg("batch_two_airs_bb", "batch", FALSE, TRUE, FALSE, TRUE),
+    \* the same AIRs, the instance without preprocessed columns first (matrix_to_instance = [1]) and of another height
+    Cfg("batch_two_airs_rev_bb", "batch", FALSE, TRUE, FALSE, TRUE),
     Cfg("batch_lookups_bb", "tables", FALSE, TRUE, TRUE, FALSE),
     Cfg("batch_circuit_tables_kb", "tables", FALSE, TRUE, TRUE, FALSE),
     Cfg("batch_fib_kb_zk", "batch", TRUE, FALSE, FALSE, TRUE),
